@@ -30,7 +30,10 @@ pub struct Case {
 
 fn cfg() -> GenCfg {
   // ASCII: observers include map()/stream, keep clear of the non-ASCII column finding W2
-  GenCfg::positional()
+  // no CachedSource beneath a ReplaceSource: replay coarsens chunks and a ReplaceSource above
+  // cuts by chunk, so column-level answers of such a tree legitimately differ between a cold and
+  // a warm call (DESIGN.md 1.5 rule 1); everything else about it is covered by C05/C07/C10
+  GenCfg { cached_under_replace: false, ..GenCfg::positional() }
 }
 
 fn strategy() -> BoxedStrategy<Case> {
@@ -141,7 +144,7 @@ impl Prop for C14 {
      observers repeatable. Non-trivial: a non-empty history on exactly one operand; distinct by hash of the case JSON".into()
   }
   fn legs(&self, _tier: Tier) -> Vec<Leg<Case>> {
-    vec![Leg { name: "pairs", source: Cases::Generated(Box::new(strategy), 60_000, 2_000_000) }]
+    vec![Leg { name: "pairs", source: Cases::Generated(Box::new(strategy), 300_000, 4_000_000) }]
   }
   fn check(&self, case: &Case) -> CheckResult {
     let r = guard(|| -> Result<CaseInfo, String> {
